@@ -73,7 +73,7 @@ class PersistentThreadWorker(PersistentWorker, ThreadWorker):
     # Child side
     def do_work(self):
         while not self._stop:
-            args = copy.deepcopy(self._args)
+            args = list(copy.deepcopy(self._args)) # default args can be a tuple, we need something we can assign to
             kwargs = copy.deepcopy(self._kwargs)
             extra = self._args_pipe.child_end.get()
             if extra is None:
